@@ -394,17 +394,31 @@ class WLSim(object):
             self.ctx.probe("move_before_the_walk_ignored")
         if self.prop is not None:
             self.resolve_without_draw()
-        self.prop = {"kind": kind, "p": parent, "q": child}
+        if self.step is not None and not self.synced:
+            # a new move: everything the previous step wrote or reported is complete (matters for implementations
+            # that draw their random numbers ahead, where no draw separates two steps)
+            self.sync_after_step()
+        self.prop = {"kind": kind, "p": parent, "q": child, "ndraws": self.draws_before_move}
         self.draws_before_move = 0
         self.ctx.log.emit("move", mv=kind, p=parent, c=child)
 
+    HOOK_FIELDS = {"proposal": ("idx_old", "idx_new", "acceptProb", "skip", "f", "kold", "knew"), "booked": ("idx", "skip", "g", "H", "cur"),
+                   "flatcheck": ("flat", "f", "Hlocal")}
+
     def on_hook(self, kind, fields):
+        if any(k not in fields for k in self.HOOK_FIELDS.get(kind, ())):
+            raise Discard("the trace hook of this tree reports other fields than the harness knows (%s: %s)" % (kind, sorted(fields)))
         self.hook_seen = True
         self.pending_hook[kind] = dict(fields)
         if kind == "booked" and self.prop is not None:
             self.resolve_without_draw()
 
     def wl_random(self, who):
+        if self.prop is not None and "proposal" not in self.pending_hook and (self.use_hook or (self.hook_capable and not self.started)):
+            # with a live hook every proposal of the walk is announced before its acceptance draw: a move that is
+            # followed by a draw without that announcement was not a proposal (e.g. a shuffle that picks the start)
+            self.prop = None
+            self.ctx.probe("move_that_was_not_a_proposal_ignored")
         if self.prop is None:
             return self.draw_r()
         return self.draw_u()
@@ -413,12 +427,10 @@ class WLSim(object):
     def draw_r(self):
         m = self.model
         self.draws_before_move += 1
-        if self.draws_before_move > 1:
+        if self.draws_before_move > 1 and not (self.use_hook or (self.hook_capable and not self.started)):
             raise Discard("more than one WL draw before the move: the RNG seam cannot tell which of them decides acceptance")
         if self.step is not None and not self.synced:
             self.sync_after_step()
-        if m.done:
-            self.viol("continued_past_convergence", "stop", "f=%r is at most the threshold %r but another step was started" % (m.f, m.conv))
         if m.steps >= self.plan["step_cap"]:
             raise StepCap()
         self.in_step = True
@@ -451,6 +463,11 @@ class WLSim(object):
             self.use_hook = not self.plan.get("no_hook")
         if not self.use_hook:
             hp = None
+            if self.prop.get("ndraws", 0) > 1:
+                raise Discard("more than one WL draw before the move: the RNG seam cannot tell which of them decides acceptance")
+        if m.done:
+            # a proposal is being decided although f is at most the threshold (a stray draw alone is not a step)
+            self.viol("continued_past_convergence", "stop", "f=%r is at most the threshold %r but another step was started" % (m.f, m.conv))
         # I1: rearrangements of the input
         if sorted(p) != self.input_sorted:
             self.viol("not_a_rearrangement", "visited_not_rearrangement", "current sequence %r is not a rearrangement of the input %r" % (p, self.plan["seq"]))
@@ -460,6 +477,9 @@ class WLSim(object):
             self.started = True
             m.cur = p
             m.idx = self.bin_of(p, hp["idx_old"] if hp else None)
+            kp = self.kappa(p)
+            if (kp > 1 + 1e-9 or kp < -1e-12) and m.in_range(m.idx) and (hp is None or hp["idx_old"] != m.idx):
+                raise Discard("the walk starts from a kappa outside [0,1], which has no bin in the partition, and the implementation does not read it as the top bin")
             if not m.in_range(m.idx):
                 self.ctx.probe("start_outside_range")
             self.ctx.probe("hook_assisted" if self.use_hook else "seam_only")
@@ -470,9 +490,20 @@ class WLSim(object):
                       "the sampler now sits on %r but the WL rule leaves it on %r (previous step: %s)" % (p, m.cur, cjson(last) if last else "none"))
         idx_new = self.bin_of(q, hp["idx_new"] if hp else None)
         inr = m.in_range(idx_new)
-        P = m.accept_prob(idx_new)
+        no_bin = False
+        kq = self.kappa(q)
+        if (kq > 1 + 1e-9 or kq < -1e-12) and inr:
+            # a kappa outside [0,1] (the delta-max heuristic underestimates for some compositions) has no bin in
+            # the partition of [0,1]: an implementation may take the nearest (top) bin or treat the proposal as
+            # outside every range; both readings keep the statement, so the implementation's reading is followed
+            if hp is None:
+                raise Discard("a proposal with kappa outside [0,1] has no bin in the partition; without the hook the implementation's reading (top bin, or outside the range) is not known")
+            if bool(hp["skip"]):
+                no_bin, inr = True, False
+                self.ctx.probe("kappa_above_one_read_as_outside")
+        P = 0.0 if no_bin else m.accept_prob(idx_new)
         if hp is not None:
-            if hp["idx_old"] != m.idx or hp["idx_new"] != idx_new:
+            if hp["idx_old"] != m.idx or (hp["idx_new"] != idx_new and not no_bin):
                 self.viol("wrong_bin", "bin", "implementation bins (old %d, new %d), nearest-centre bins of kappa(%s)=%r and kappa(%s)=%r are (%d, %d) with M=%d" % (
                     hp["idx_old"], hp["idx_new"], p, self.kappa(p), q, self.kappa(q), m.idx, idx_new, m.M))
             if not feq(hp["knew"], self.kappa(q), 1e-9) or not feq(hp["kold"], self.kappa(p), 1e-9):
@@ -491,7 +522,15 @@ class WLSim(object):
         probability is 0 or 1, where the decision does not depend on the draw"""
         kind, p, q, idx_new, inr, P = self.prepare()
         if 0.0 < P < 1.0:
-            raise Discard("the step was decided without an acceptance draw although 0 < P < 1 (cannot be followed through the RNG seam)")
+            hb = self.pending_hook.get("booked") if self.use_hook else None
+            if hb is None or "cur" not in hb:
+                raise Discard("the step was decided without an acceptance draw although 0 < P < 1 (cannot be followed through the RNG seam)")
+            # the acceptance number did not pass the seam (drawn ahead of the move, or from another generator): the
+            # probability was checked against the rule; which way the coin fell is taken from the hook's record
+            self.ctx.probe("decision_followed_from_hook")
+            took = (hb["cur"] == q) if q != p else True
+            self.decide(kind, p, q, idx_new, inr, P, P / 2 if took else (1 + P) / 2, "unattributed")
+            return
         self.ctx.probe("step_decided_without_draw")
         self.decide(kind, p, q, idx_new, inr, P, 0.0 if P >= 1.0 else ONE_MINUS, "no_draw")
 
@@ -664,12 +703,48 @@ class WLSim(object):
             self.read_new_rows(name)
         # hlog: numeric rows = [check#, H local...]; header rows "iter k:"
         hrows = [r for r in self.disk_rows["hlog.txt"] if numeric(r)]
-        self.cmp_rows("hlog", hrows, m.rows["hlog"], strict, exact=True, allow_extra=allow_extra)
-        iters = [r for r in self.disk_rows["hlog.txt"] if len(r) == 2 and r[0][0].lower() == "iter"]
-        if len(iters) > m.iter_headers and not allow_extra:
-            self.viol("log_disagrees", "hlog_iter_headers", "hlog announces %d iterations, the bookkeeping has started %d" % (len(iters), m.iter_headers))
+        # how often the histogram is logged is not said: every flat check (as today) or only the final histogram of
+        # each iteration (all that "ln f times the final histogram of that iteration" needs) are both accepted
+        finals = [m.rows["hlog"][k_ - 1] for k_ in sorted(m.iter_end_rows)]
+        if getattr(self, "hlog_final_only", False):
+            self.cmp_rows("hlog", hrows, finals, strict, exact=True, allow_extra=allow_extra)
+        else:
+            try:
+                self.cmp_rows("hlog", hrows, m.rows["hlog"], strict, exact=True, allow_extra=allow_extra)
+            except Violation as v:
+                save = getattr(self, "_cmp_hlog", 0)
+                self._cmp_hlog = 0
+                try:
+                    self.cmp_rows("hlog", hrows, finals, strict, exact=True, allow_extra=allow_extra)
+                except Violation:
+                    self._cmp_hlog = save
+                    raise v
+                self.hlog_final_only = True
+                self.ctx.probe("hlog_holds_final_histograms_only")
+        self.check_captions(final=False, allow_extra=allow_extra)
         grows = [r for r in self.disk_rows["glog.txt"] if numeric(r)]
         self.cmp_rows("glog", grows, m.rows["glog"], strict, exact=False, allow_extra=allow_extra)
+
+    def check_captions(self, final, allow_extra=False):
+        """"iter k:" captions are not part of the statement: whether one is written ahead of an iteration or after
+        its flat check, and whether the last one appears, is the implementation's business.  What a histogram log
+        cannot do and still agree with the bookkeeping is announce the same iteration twice, or more iterations
+        than one beyond those that were run."""
+        m = self.model
+        nums = []
+        for r in self.disk_rows["hlog.txt"]:
+            if len(r) == 2 and r[0][0].lower() == "iter":
+                mm = re.match(r"^(\d+)", r[1][0])
+                nums.append(int(mm.group(1)) if mm else None)
+        if not nums:
+            if final:
+                self.ctx.probe("hlog_without_iteration_headers")
+            return
+        known = [n for n in nums if n is not None]
+        if len(set(known)) != len(known):
+            self.viol("log_disagrees", "hlog_iter_headers", "hlog announces an iteration twice (captions %r)" % (nums,))
+        if len(nums) > m.iter_headers + 1 and not allow_extra:
+            self.viol("log_disagrees", "hlog_iter_headers", "hlog announces %d iterations, the bookkeeping has started %d" % (len(nums), m.iter_headers))
 
     def cmp_rows(self, name, disk, model, strict, exact, allow_extra=False):
         if len(disk) > len(model) and allow_extra:
@@ -711,12 +786,7 @@ class WLSim(object):
                 self.viol("output_disagrees", "return_centres", "returned bin centre %d is %r, midpoint of the equal partition is %r" % (i, arr[0][i], cen[i]))
             if not feq(arr[1][i], m.g[i], 1e-9):
                 self.viol("output_disagrees", "return_g", "returned g[%d]=%r, bookkeeping gives %r" % (i, arr[1][i], m.g[i]))
-        # iteration headers complete
-        iters = [r for r in self.disk_rows["hlog.txt"] if len(r) == 2 and r[0][0].lower() == "iter"]
-        if not iters:
-            self.ctx.probe("hlog_without_iteration_headers")       # the captions are not part of the statement
-        elif len(iters) != m.iter_headers:
-            self.viol("log_disagrees", "hlog_iter_headers", "hlog announces %d iterations, the bookkeeping started %d" % (len(iters), m.iter_headers))
+        self.check_captions(final=True)
         self.check_static_files(strict=True)
         self.check_increments()
 
@@ -744,6 +814,8 @@ class WLSim(object):
         # histogram_bins: all centres, then the centres of the range
         rows = [r for r in parse_rows(self.complete(self.text("histogram_bins.txt"), strict)) if numeric(r)]
         want = cen + cen[m.a:m.b]
+        if strict and len(rows) == len(cen):
+            want = cen                     # all centres, without the section that repeats those of the range
         if len(rows) > len(want) or (strict and len(rows) != len(want)):
             self.viol("output_disagrees", "histogram_bins_rows", "histogram_bins.txt has %d rows, expected %d centres + %d centres of the range" % (len(rows), m.M, m.b - m.a))
         for r, w in zip(rows, want):
@@ -786,6 +858,9 @@ class WLSim(object):
             rows = [r for r in hl if numeric(r)]
             ends = [k for k, row in enumerate(m.rows["hlog"]) if k + 1 in m.iter_end_rows]
             start = 0
+            if getattr(self, "hlog_final_only", False):
+                per_iter = [[r] for r in rows]
+                ends = []
             for e in ends:
                 per_iter.append(rows[start:e + 1])
                 start = e + 1
@@ -896,6 +971,9 @@ def _execute(plan, ctx, fs, wl, seqmod, permmod, Sequence, SequenceException, cl
             try:
                 parent = seq_of(self)
                 out = orig(self, *a, **k)
+            except Exception as e:
+                cur["move_exc"] = e           # a move of the walk failed (e.g. the cluster move's refusal)
+                raise
             finally:
                 cur["depth"] = 0
             cur["sim"].on_move(name, parent, seq_of(out))
@@ -925,13 +1003,19 @@ def _execute(plan, ctx, fs, wl, seqmod, permmod, Sequence, SequenceException, cl
             rel.kappa()
         elif pre["how"] == "machine":
             os.makedirs(OUTDIR + "_prelude", exist_ok=True)
-            wl.WangLandauMachine(rel, OUTDIR + "_prelude", set(), 2, 0.0, 1.0, 5, 0.5, math.exp(2.0)).run()
+            try:
+                wl.WangLandauMachine(rel, OUTDIR + "_prelude", set(), 2, 0.0, 1.0, 5, 0.5, math.exp(2.0)).run()
+            except (Violation, Discard, Budget, SimCrash, DrawCap):
+                raise
+            except Exception:
+                ctx.probe("prelude_machine_refused")
         else:
             rel.deltaMax(True)
         ctx.log.emit("prelude", seq=pre["seq"], how=pre["how"])
     for run_no in range(nruns):
         sim = WLSim(plan, ctx, fs, wl, seqmod, Sequence, run_no)
         cur["sim"] = sim
+        cur["move_exc"] = None
         fired0 = fs.errors_fired
         fs.faults = []
         fs.set_capacity(None)
@@ -990,15 +1074,23 @@ def _execute(plan, ctx, fs, wl, seqmod, permmod, Sequence, SequenceException, cl
             outcome = "crash"
         except DrawCap:
             outcome = "move_cap"
-        except OSError as e:
-            outcome, err = "oserror", e
-        except SequenceException as e:
-            outcome, err = "move_exception", e
         except Exception as e:
-            if fs.errors_fired > fired0:
+            chain, x = [], e
+            while x is not None and len(chain) < 10:
+                chain.append(x)
+                x = x.__cause__ or x.__context__
+            if cur.get("move_exc") is not None and any(c is cur["move_exc"] for c in chain) and not isinstance(e, OSError):
+                outcome, err = "move_exception", e       # the run was aborted by a move that refused: not a statement about the WL rule
+            elif isinstance(e, OSError):
+                outcome, err = "oserror", e
+            elif fs.errors_fired > fired0:
                 outcome, err = "oserror", e          # an I/O error re-wrapped by the library is still a failed run
             elif run_no == 1 and not sim.started:
                 outcome, err = "refused", e          # e.g. a machine that refuses to run twice or to overwrite a dirty directory
+            elif not sim.started and (cfg["flatcrit"] <= 0.0 or cfg["flatcrit"] >= 1.0 or conv_of(cfg) >= math.e or conv_of(cfg) <= 1.0):
+                # a flatness criterion of 0 or 1, or a threshold that f never exceeds / can never reach, are corners of
+                # the parameter space: refusing them before the first step is an implementation's right
+                raise Discard("boundary configuration refused before the first step: %r" % (e,))
             else:
                 raise
         fired = fs.errors_fired - fired0
